@@ -230,7 +230,7 @@ class DocRunner:
         else:
             self.kept["meta"].set_user_defined_metadata(f"kk{self.n}", t)
             self._user.append(t)
-            self.tokens["meta.xml"] = list(self._user) + ([self._title] if self._title else [])
+            self.tokens["meta.xml"] = list(self._user) + ([self._title] if self._title else []) + ([self._gen] if self._gen else [])
             self.edited.add("meta.xml")
         self.labels.add("edit-through-kept-wrapper")
 
@@ -271,9 +271,25 @@ class DocRunner:
         else:
             m.title = t
             self._title = t
-        self.tokens["meta.xml"] = list(self._user) + ([self._title] if self._title else [])
+        self.tokens["meta.xml"] = list(self._user) + ([self._title] if self._title else []) + ([self._gen] if self._gen else [])
 
     _title = None
+    _gen = None
+
+    def op_generator(self, op):
+        """the generator string set by the user (to a new value, or to the value it already has) is what the file says"""
+        m = self.doc.meta
+        cur = m.generator
+        self.n += 1
+        if op.get("same") and cur and "&" not in cur and "<" not in cur:
+            m.generator = cur
+            self._gen = cur
+            self.labels.add("generator-set-to-same-value")
+        else:
+            self._gen = f"GENTOK{self.n}q"
+            m.generator = self._gen
+        self.edited.add("meta.xml")
+        self.tokens["meta.xml"] = list(self._user) + ([self._title] if self._title else []) + [self._gen]
 
     def op_add_file(self, op):
         self.n += 1
@@ -405,6 +421,28 @@ class DocRunner:
 
     merged_from = None
 
+    def op_retemplate(self, op):
+        """the document is written to a template path (always the same one within a history) and a new document is made
+        from that path: what the new document holds is what the file holds now"""
+        from odfdo import Document
+
+        p = self.scratch / f"template.od{_ext(self.doc)}"
+        self.doc.save(str(p))
+        data = p.read_bytes()
+        self.doc = Document.new(str(p))
+        infos, parts = odfread.read_zip(data)
+        self.model = {norm(k): v for k, v in parts.items()}
+        self.model["mimetype"] = self.model["mimetype"].replace(b"-template", b"")
+        self.kept = None
+        self.origin = None
+        self._gen = None
+        self.tokens["meta.xml"] = list(self._user) + ([self._title] if self._title else [])
+        self.set_xml = None
+        self.edited = {"META-INF/manifest.xml"}
+        self.unread = True
+        self.labels.add("new-from-rewritten-template-path" if getattr(self, "_retpl", False) else "new-from-template-path")
+        self._retpl = True
+
     def op_clone(self, op):
         self.doc = self.doc.clone
         self.kept = None
@@ -486,6 +524,9 @@ class DocRunner:
             self.judge_reopened(doc2, saved)
             self.doc = doc2
             self.kept = None
+            # a reopened document is stamped with the library's generator at its next save (documented): the token goes
+            self._gen = None
+            self.tokens["meta.xml"] = list(self._user) + ([self._title] if self._title else [])
             self.origin = new_origin
             self.labels.add("reopened")
             self.lazy = packaging == "zip" and op.get("target") != "bytesio"
@@ -760,6 +801,27 @@ def make_doc_machine(ctx, prop, extra_ops=()):
             for w in which:
                 self.go({"op": "edit_kept", "which": w})
             self.go({"op": "save", "packaging": packaging, "target": tgt, "reopen": False, "pretty": False})
+
+        if prop == "C04":
+            @rule(c=st.integers(0, 3), between=st.sampled_from(["add_file", "add_file", "del_part", "paragraph"]))
+            def template_twice(self, c, between):
+                """a template path used, rewritten with other content, and used again"""
+                r = self.r
+                if r is None or r.dead:
+                    return
+                self.go({"op": "retemplate"})
+                if between == "add_file":
+                    self.go({"op": "add_file", "c": c, "path": False, "frame": True})
+                elif between == "del_part":
+                    self.go({"op": "del_part", "i": c, "pick": "any"})
+                else:
+                    self.go({"op": "paragraph"})
+                self.go({"op": "retemplate"})
+                self.go({"op": "save", "packaging": "zip", "target": "bytesio", "reopen": False, "pretty": False})
+
+        @rule(same=st.booleans())
+        def generator(self, same):
+            self.go({"op": "generator", "same": same})
 
         @rule(which=st.sampled_from(["para", "body", "style", "meta"]))
         def edit_kept(self, which):
